@@ -427,6 +427,9 @@ def run(ctx, rep):
     # well-formed text parses: blanks and comments are accepted between any two tokens of a production
     from rules import c08_trivia
     c08_trivia.run(ctx, rep, rid="R-C01-trivia")
+    # the initial values in the tree are the values that were written: a real literal is rounded once
+    from rules import c09_oneround
+    c09_oneround.run(ctx, rep, rid="R-C01-oneround")
     from rules import c01_vars
     c01_vars.run(ctx, rep)
     rule_collide(ctx, rep, g)
